@@ -76,8 +76,14 @@ func mutantsOf(name string, data []byte, r *hx.Rng, budget int, emit func(mutant
 	var boxes []rawBox
 	walkRaw(data, 0, len(data), 0, nil, &boxes)
 	var all []func() mutant
+	var cats []string
 	add := func(desc string, f func() []byte) {
 		all = append(all, func() mutant { return mutant{name + ":" + desc, f} })
+		c := desc
+		if k := strings.IndexAny(c, "(@"); k > 0 {
+			c = c[:k]
+		}
+		cats = append(cats, c)
 	}
 	add("orig", func() []byte { return data })
 	for _, b := range boxes {
@@ -172,6 +178,51 @@ func mutantsOf(name string, data []byte, r *hx.Rng, budget int, emit func(mutant
 			})
 		}
 	}
+	// splice: a box harvested from any testdata file inserted as first / last child of a container
+	// (or at top level), the ancestors' sizes kept consistent
+	if pool := harvestPool(); len(pool) > 0 {
+		for _, b := range boxes {
+			b := b
+			skip, isCont := rawContainers[b.name]
+			if !isCont || b.hdr != 8 {
+				continue
+			}
+			for k := 0; k < 6; k++ {
+				ins := pool[r.Intn(len(pool))]
+				at := b.off + b.hdr + skip
+				if k%2 == 1 {
+					at = b.off + b.size
+				}
+				if at > b.off+b.size {
+					continue
+				}
+				add(fmt.Sprintf("splice(%s into %s@%d at %d)", string(ins[4:8]), b.name, b.off, at), func() []byte {
+					c := append([]byte(nil), data[:at]...)
+					c = append(c, ins...)
+					c = append(c, data[at:]...)
+					wb := b
+					wb.parents = append(append([]int(nil), b.parents...), b.off)
+					adjustParents(c, wb, len(ins))
+					return c
+				})
+			}
+		}
+		for k := 0; k < 8; k++ {
+			ins := pool[r.Intn(len(pool))]
+			cands := []int{0, len(data)}
+			for _, b := range boxes {
+				if b.depth == 0 {
+					cands = append(cands, b.off)
+				}
+			}
+			at := cands[r.Intn(len(cands))]
+			add(fmt.Sprintf("splice(%s at top level %d)", string(ins[4:8]), at), func() []byte {
+				c := append([]byte(nil), data[:at]...)
+				c = append(c, ins...)
+				return append(c, data[at:]...)
+			})
+		}
+	}
 	// swap adjacent siblings
 	for i := 0; i+1 < len(boxes); i++ {
 		a, b := boxes[i], boxes[i+1]
@@ -205,19 +256,46 @@ func mutantsOf(name string, data []byte, r *hx.Rng, budget int, emit func(mutant
 			return c
 		})
 	}
-	// subsample deterministically to the budget (always keep "orig")
-	idx := make([]int, len(all))
-	for i := range idx {
-		idx[i] = i
+	// subsample deterministically to the budget: the budget is shared evenly between the mutation
+	// categories (truncation, size, large, count, vf, rename, remove, dup, splice, swap, byte), "orig" always kept
+	if len(all) <= budget {
+		for _, f := range all {
+			emit(f())
+		}
+		return
 	}
-	if len(all) > budget {
-		for i := len(idx) - 1; i > 1; i-- {
-			j := 1 + r.Intn(i)
+	byCat := map[string][]int{}
+	var catOrder []string
+	for i := 1; i < len(all); i++ {
+		c := cats[i]
+		if _, ok := byCat[c]; !ok {
+			catOrder = append(catOrder, c)
+		}
+		byCat[c] = append(byCat[c], i)
+	}
+	chosen := map[int]bool{0: true}
+	per := budget / (len(catOrder) + 1)
+	if per < 1 {
+		per = 1
+	}
+	for _, c := range catOrder {
+		idx := byCat[c]
+		for i := len(idx) - 1; i > 0; i-- {
+			j := r.Intn(i + 1)
 			idx[i], idx[j] = idx[j], idx[i]
 		}
-		idx = idx[:budget]
-		sort.Ints(idx)
+		for k := 0; k < per && k < len(idx); k++ {
+			chosen[idx[k]] = true
+		}
 	}
+	for len(chosen) < budget {
+		chosen[1+r.Intn(len(all)-1)] = true
+	}
+	var idx []int
+	for i := range chosen {
+		idx = append(idx, i)
+	}
+	sort.Ints(idx)
 	for _, i := range idx {
 		emit(all[i]())
 	}
@@ -272,6 +350,32 @@ func boxPipeline(data []byte) string {
 		res = append(res, "e0="+w+","+cls(p, over, err))
 	}
 	return strings.Join(res, "|")
+}
+
+var pool [][]byte
+
+// harvestPool: every distinct box (any level, not mdat, <= 4 KiB) of every testdata file
+func harvestPool() [][]byte {
+	if pool != nil {
+		return pool
+	}
+	seen := map[string]bool{}
+	for _, fn := range testdataFiles() {
+		data := mustRead(fn)
+		var boxes []rawBox
+		walkRaw(data, 0, len(data), 0, nil, &boxes)
+		for _, b := range boxes {
+			if b.name == "mdat" || b.size > 4096 {
+				continue
+			}
+			bd := data[b.off : b.off+b.size]
+			if !seen[string(bd)] {
+				seen[string(bd)] = true
+				pool = append(pool, bd)
+			}
+		}
+	}
+	return pool
 }
 
 var regNames []string
